@@ -13,11 +13,16 @@ Definition fx_code (l : fxline) : str := spaces (fx_ind l) ++ fx_text l ++ space
 Definition fx_field (l : fxline) : str := fx_code l ++ render_comment (fx_comment l).
 Definition render_fxline (l : fxline) : str := fx_label l ++ fx_c6 l :: fx_field l ++ [nl].
 
-(* lines that are not statement lines: comment lines (C, c, * or ! in column 1) and blank lines
-   of any width *)
-Inductive fxirr := FxComment (c0 : ascii) (rest : str) | FxBlank (n : nat).
+(* lines that are not statement lines: comment lines (C, c, * or ! in column 1), blank lines of
+   any width, and comment lines whose first non-blank character is a '!' in some other column than
+   column 6 ([FxBang ind rest]: ind blanks, '!', rest; a '!' in column 6 marks a continuation line) *)
+Inductive fxirr := FxComment (c0 : ascii) (rest : str) | FxBlank (n : nat) | FxBang (ind : nat) (rest : str).
 Definition render_fxirr (i : fxirr) : str :=
-  match i with FxComment c0 rest => c0 :: rest ++ [nl] | FxBlank n => spaces n ++ [nl] end.
+  match i with
+  | FxComment c0 rest => c0 :: rest ++ [nl]
+  | FxBlank n => spaces n ++ [nl]
+  | FxBang ind rest => spaces ind ++ bang :: rest ++ [nl]
+  end.
 
 (* a statement: initial line, then continuation lines, each possibly preceded by comment lines
    and blank lines *)
@@ -79,7 +84,11 @@ Definition label_part (l : fxline) : str :=
   match strip (fx_label l) with [] => [] | d => lower d ++ [" "%char] end.
 
 Definition bline_of (i : fxirr) : bline :=
-  match i with FxComment _ rest => BComment 0 rest | FxBlank n => BBlank (n - 6) end.
+  match i with
+  | FxComment _ rest => BComment 0 rest
+  | FxBlank n => BBlank (n - 6)
+  | FxBang ind rest => BComment ind rest
+  end.
 
 (* Outside literals a line break is a token boundary: the line is continued with "text &" and the
    continuation line starts with its text (free form joins the two with a blank).  An inline
@@ -134,6 +143,7 @@ Definition free_item (it : fxitem) : fitem :=
   match it with
   | FxIrr (FxComment _ rest) => FComment 0 rest
   | FxIrr (FxBlank n) => FBlank (n - 6)
+  | FxIrr (FxBang ind rest) => FComment ind rest
   | FxStmt st => FLine (segs_of (fs_first st) (fs_conts st))
   end.
 Definition free_of (f : list fxitem) : list fitem := map free_item f.
